@@ -87,8 +87,15 @@ async def calculate_in_subprocess(func: Callable[..., Union[T, Awaitable[T]]], *
     loop = asyncio.get_event_loop()
     loop.add_reader(fd=rx.fileno(), callback=event.set)
 
-    if not rx.poll():  # do not use process.is_alive() as condition here
-        await event.wait()
+    try:
+        if not rx.poll():  # do not use process.is_alive() as condition here
+            await event.wait()
+    except BaseException:  # the awaiting task is cancelled (task.cancel(), asyncio.wait_for): leave nothing behind
+        loop.remove_reader(fd=rx.fileno())
+        process.kill()  # nobody is going to read the result any more
+        process.join()
+        rx.close()
+        raise
 
     loop.remove_reader(fd=rx.fileno())
     event.clear()
